@@ -217,7 +217,8 @@ CHECKS["C09"] = dict(
     assumptions=GRAPH_ASSUME,
     parts=[rapid_part("graphs", "compose", "TestC09", 600, 5000, race=True, replay_test="TestC09Replay", replay_reps=5),
            rapid_part("react", "flow/agent/react", "TestC09React", 400, 3000, race=True, replay_test="TestC09ReactReplay", replay_reps=5),
-           rapid_part("host", "flow/agent/multiagent/host", "TestC09Host", 400, 3000, race=True, replay_test="TestC09HostReplay", replay_reps=5)],
+           rapid_part("host", "flow/agent/multiagent/host", "TestC09Host", 400, 3000, race=True, replay_test="TestC09HostReplay", replay_reps=5),
+           rapid_part("tools", "compose", "TestC09Tools", 500, 4000, race=True, replay_test="TestC09ToolsReplay", replay_reps=5)],
 )
 
 CHECKS["C19"] = dict(
